@@ -26,6 +26,29 @@ type Pre struct {
 	Cert    bool
 	Key     string
 	Comment string
+	// KID (certificates): "" = a free-text key identifier; otherwise a key identifier in the RA's own format, as
+	// another deployment or another handler of this RA writes it: "regular" (the attribute combination the
+	// regular handler itself requests, for alice or for someone else), "hw", "ff", "nonce", "sshonly"
+	KID string `json:",omitempty"`
+}
+
+func preKeyID(kind string, i int) string {
+	a := vh.KeyIDAttrs{Prins: []string{"alice"}, TransID: fmt.Sprintf("%010x", 9000+i), ReqUser: "alice", ReqIP: "172.17.0.1", ReqHost: "laptop", Touch: 1, Version: 1}
+	switch kind {
+	case "":
+		return fmt.Sprintf("foreign certificate %d", i)
+	case "regular-other":
+		a.Prins, a.ReqUser, a.ReqHost = []string{"someone"}, "someone", "staging.example.com"
+	case "hw":
+		a.HW = true
+	case "ff":
+		a.FF, a.Touch = true, 0
+	case "nonce":
+		a.Nonce = true
+	case "sshonly":
+		a.Usage = 1
+	}
+	return a.Text()
 }
 
 type RunSpec struct {
@@ -70,7 +93,11 @@ func gen(t *rapid.T) Case {
 			Cert:    rapid.Bool().Draw(t, fmt.Sprintf("preCert%d", i)),
 			Key:     rapid.SampledFrom([]string{"rsa1536", "p256c", "ed25519c", "p521a", "p384a"}).Draw(t, fmt.Sprintf("preKey%d", i)),
 			Comment: rapid.SampledFrom(nearMiss).Draw(t, fmt.Sprintf("preComment%d", i)),
+			KID:     rapid.SampledFrom([]string{"", "", "", "regular", "regular-other", "hw", "ff", "nonce", "sshonly"}).Draw(t, fmt.Sprintf("preKID%d", i)),
 		})
+		if !c.Pre[i].Cert {
+			c.Pre[i].KID = ""
+		}
 	}
 	nr := rapid.IntRange(1, 6).Draw(t, "nruns")
 	for i := 0; i < nr; i++ {
@@ -172,7 +199,7 @@ func exec(c Case) (vh.Outcome, error) {
 	for i, pre := range c.Pre {
 		ak := agent.AddedKey{PrivateKey: vh.Key(pre.Key), Comment: pre.Comment}
 		if pre.Cert {
-			ak.Certificate = vh.MakeSSHCert(vh.SSHCertSpec{Key: pre.Key, KeyID: fmt.Sprintf("foreign certificate %d", i), ValidAfter: 0, ValidBefore: ssh.CertTimeInfinity, Serial: uint64(500 + i), Principals: []string{"someone"}})
+			ak.Certificate = vh.MakeSSHCert(vh.SSHCertSpec{Key: pre.Key, KeyID: preKeyID(pre.KID, i), ValidAfter: 0, ValidBefore: ssh.CertTimeInfinity, Serial: uint64(500 + i), Principals: []string{"someone"}})
 		}
 		_ = p.Ring().Add(ak)
 	}
@@ -435,7 +462,7 @@ func equal(a, b []string) bool {
 	return true
 }
 
-const rule = "histories against one recording keyring agent: 0..5 pre-existing identities (plain RSA / ECDSA / Ed25519 keys and foreign certificates whose comments are near-misses of the handler label: other case, truncation, '-' for '.', missing first letter, 'private-key', empty, non-ASCII; comments containing the exact handler name are not generated), then 1..6 runs - of the real handler (a third of the later ones through the handler object and forwarded connection an earlier run built, class handler-object-reused), or (a quarter) of a harness handler whose one agent key (the repository's AgentKey) carries 2..3 signing requests, with the key-pair algorithm (default, RSA-2048, rarely RSA-4096, P-256 / 384 / 521, Ed25519) and the private-key label drawn - each succeeding or failing {agent refuses the challenge / handler rejects, no key slot configured, CA error - for several requests: on the last one, after the earlier ones were signed -, the agent refusing to remove an identity of the previous generation, the agent refusing one certificate insertion, a CA that answers 300 ms after the caller's context ended (late success, or a failure after which the agent is looked at 700 ms later)}, the CA returning 1..3 (one run in 30: 8 / 16 / 20) certificates (validity window as requested, or without expiry, or valid until 2^63 s, or stamped by a CA clock 90 s ahead, or the first certificate of a reply valid for 5 minutes only; a sixth of the replies also carry a plain public key - the CA's own key line - in front of, between or behind the certificates) with 0..n+1 comments (present / empty / containing the handler name), validity from {1, 2, 3599, 3600, 43200, 2^31, 315360000} or random in 1 s..10 y, the handler's 'key_label' option left out or set (the default, another text, the handler name, a text with a space). Oracle after a successful run: the new private key and every returned certificate are listed, signing with each certificate yields a signature verifying under its key, every AddedKey the agent received has 0 < lifetime and lifetime >= validity, the run allocated no more than 64 MiB + 1 MiB per returned certificate, certificates of the earlier generation are absent, the certificate set is exactly foreign + this generation, every pre-existing identity is present with identical blob and comment; after a failing run the certificate set is unchanged. Non-trivial: >= 2 successful runs or a failure after a success, with >= 1 pre-existing identity."
+const rule = "histories against one recording keyring agent: 0..5 pre-existing identities (plain RSA / ECDSA / Ed25519 keys and foreign certificates whose comments are near-misses of the handler label: other case, truncation, '-' for '.', missing first letter, 'private-key', empty, non-ASCII; comments containing the exact handler name are not generated; two thirds of the foreign certificates carry a key identifier in the RA's own format - the regular handler's attribute combination for the same or another user, or hardware / firefighter / nonce / SSH-only ones -, as another deployment would issue), then 1..6 runs - of the real handler (a third of the later ones through the handler object and forwarded connection an earlier run built, class handler-object-reused), or (a quarter) of a harness handler whose one agent key (the repository's AgentKey) carries 2..3 signing requests, with the key-pair algorithm (default, RSA-2048, rarely RSA-4096, P-256 / 384 / 521, Ed25519) and the private-key label drawn - each succeeding or failing {agent refuses the challenge / handler rejects, no key slot configured, CA error - for several requests: on the last one, after the earlier ones were signed -, the agent refusing to remove an identity of the previous generation, the agent refusing one certificate insertion, a CA that answers 300 ms after the caller's context ended (late success, or a failure after which the agent is looked at 700 ms later)}, the CA returning 1..3 (one run in 30: 8 / 16 / 20) certificates (validity window as requested, or without expiry, or valid until 2^63 s, or stamped by a CA clock 90 s ahead, or the first certificate of a reply valid for 5 minutes only; a sixth of the replies also carry a plain public key - the CA's own key line - in front of, between or behind the certificates) with 0..n+1 comments (present / empty / containing the handler name), validity from {1, 2, 3599, 3600, 43200, 2^31, 315360000} or random in 1 s..10 y, the handler's 'key_label' option left out or set (the default, another text, the handler name, a text with a space). Oracle after a successful run: the new private key and every returned certificate are listed, signing with each certificate yields a signature verifying under its key, every AddedKey the agent received has 0 < lifetime and lifetime >= validity, the run allocated no more than 64 MiB + 1 MiB per returned certificate, certificates of the earlier generation are absent, the certificate set is exactly foreign + this generation, every pre-existing identity is present with identical blob and comment; after a failing run the certificate set is unchanged. Non-trivial: >= 2 successful runs or a failure after a success, with >= 1 pre-existing identity."
 
 func TestC03Provision(t *testing.T) {
 	vh.Run(t, vh.Spec[Case]{Property: "C03", Name: "TestC03Provision", Rule: rule, Gen: gen, Exec: exec})
